@@ -8,8 +8,8 @@ def main(tier, only=None):
         "CrossHair symbolic execution of the real save_model_with_external_data: which initializers are "
         "uninitialised (<=3, symbolic booleans), which of 8 path shapes, verbose/tqdm availability and whether the "
         "underlying ir.save faults are solver variables. Postconditions: refusal (ValueError) iff some initializer "
-        "has no value, and then ir.save was not called; otherwise exactly one call with the model, the path, "
-        "external_data == basename + '.data'; an OSError propagates; initializer mapping and const_value objects "
+        "has no value, and then ir.save was not called; otherwise exactly one call with the model, the path and "
+        "external_data naming a sibling file (a bare file name other than the model file's own); an OSError propagates; initializer mapping and const_value objects "
         "are identical afterwards. What onnx_ir.save does at each file-system call is outside the claim (installed "
         "package, I/O)."
     )
@@ -26,5 +26,14 @@ def main(tier, only=None):
                         "c20.real.*: open() as seen by onnx_ir.external_data and onnx is a counting proxy over the real file; "
                         "faults are OSError at one operation; rename/fsync are not used by the installed onnx_ir and so not fault points; "
                         "<=2 initializers quick, <=3 thorough"]
-    xh.run_obligations(run, ["vp.harness.c20", "vp.harness.c20_real"], tier, only)
+    mods = ["vp.harness.c20", "vp.harness.c20_real"]
+    from vp.harness import c20 as H1
+    ok, detail = H1.protocol_probe()
+    run.coverage["stub_protocol_probe"] = detail
+    if not ok:
+        # the function no longer hands the whole save to one ir.save(external_data=...) call: the stubbed world (fake paths,
+        # recording stub) cannot represent it; the real-save group below still decides the property on the file system
+        run.note_inconclusive(f"c20.save.*: stub model not applicable ({detail}); decided by c20.real.* only")
+        mods = ["vp.harness.c20_real"]
+    xh.run_obligations(run, mods, tier, only)
     return run.finish()
